@@ -1145,6 +1145,17 @@ func RunSliceExpr(ctx *Task, expr *ast.SliceExpr) *errchain.PlError {
 
 	}
 
+	// clamp the bounds to the object the way Python does, so that a reversed
+	// or out-of-range pair selects nothing instead of yielding a negative
+	// capacity or an out-of-range index
+	if stepInt > 0 {
+		startInt = clampSliceBound(startInt, 0, length)
+		endInt = clampSliceBound(endInt, 0, length)
+	} else {
+		startInt = clampSliceBound(startInt, -1, length-1)
+		endInt = clampSliceBound(endInt, -1, length-1)
+	}
+
 	switch obj.T {
 	case ast.String:
 		str := obj.V.(string)
@@ -1178,7 +1189,7 @@ func RunSliceExpr(ctx *Task, expr *ast.SliceExpr) *errchain.PlError {
 			if endInt > length {
 				endInt = length
 			}
-			result := make([]any, 0, (endInt-startInt+stepInt-1)/stepInt)
+			result := make([]any, 0, sliceCap(endInt-startInt, stepInt))
 			for i := startInt; i < endInt; i += stepInt {
 				result = append(result, list[i])
 			}
@@ -1191,7 +1202,7 @@ func RunSliceExpr(ctx *Task, expr *ast.SliceExpr) *errchain.PlError {
 			if endInt < 0 {
 				endInt = -1
 			}
-			result := make([]any, 0, (startInt-endInt-stepInt-1)/(-stepInt))
+			result := make([]any, 0, sliceCap(startInt-endInt, -stepInt))
 			for i := startInt; i > endInt; i += stepInt {
 				result = append(result, list[i])
 			}
@@ -1200,6 +1211,25 @@ func RunSliceExpr(ctx *Task, expr *ast.SliceExpr) *errchain.PlError {
 		}
 	}
 }
+func clampSliceBound(v, lo, hi int) int {
+	if v < lo {
+		return lo
+	}
+	if v > hi {
+		return hi
+	}
+	return v
+}
+
+// sliceCap returns the number of elements in a range of the given span
+// walked with the given positive step.
+func sliceCap(span, step int) int {
+	if span <= 0 {
+		return 0
+	}
+	return (span-1)/step + 1
+}
+
 func typePromotion(l ast.DType, r ast.DType) ast.DType {
 	if l == ast.Float || r == ast.Float {
 		return ast.Float
